@@ -23,6 +23,9 @@ RECURSIVE SumSet(_, _)
 SumSet(f, S) == IF S = {} THEN 0 ELSE LET x == CHOOSE y \in S : TRUE IN f[x] + SumSet(f, S \ {x})
 
 Range(s) == {s[i] : i \in DOMAIN s}
+RECURSIVE SortedSeq(_)
+\* the elements of a finite set of integers in increasing order
+SortedSeq(S) == IF S = {} THEN <<>> ELSE LET m == CHOOSE x \in S : \A y \in S : x <= y IN <<m>> \o SortedSeq(S \ {m})
 
 \* ---------------------------------------------------------------- bags
 \* the bag (multiset) of F(s[i]) for i in D, as a function value -> count
